@@ -55,7 +55,16 @@ Definition lookups_against (idx : list string) (g : utree) (ls : list lookup) (n
 
 Definition judge (c o : sexp) : verdict :=
   match get_tree "tree" c, get_strings "names" c, get_bool "revert" c with
-  | Some t, Some names, Some rev =>
+  | Some t0, Some names, Some rev =>
+    (* with a pre-history the input of RemoveTips is the tree dumped just before the call *)
+    let t := match get_tree "pretree" o with Some p => p | None => t0 end in
+    match get_string "preerr" o with
+    | Some m => VOk false "pre:err"
+    | None =>
+    match (match get "preaudit" o with Some _ => get_strings "preaudit" o | None => Some [] end) with
+    | Some (_ :: _) => VOk false "pre:audit"
+    | None => VBad "undecodable preaudit"
+    | Some [] =>
     let orig := tip_names t in
     let kept := ssort (filter (fun x => negb (selected rev names x)) (leaves t)) in
     let removed := filter (fun x => selected rev names x) (leaves t) in
@@ -64,7 +73,7 @@ Definition judge (c o : sexp) : verdict :=
                   && Nat.leb 3 (length kept) in
     let in_dom_single := wf t && negb (no_single t) && Nat.leb 2 (degree t) && nodup_sorted (ssort (leaves t))
                          && Nat.leb 3 (length kept) in
-    let tag := (if rev then "keep" else "remove") ++
+    let tag := (match get "pretree" o with Some _ => "pre:" | None => "" end) ++ (if rev then "keep" else "remove") ++
                (match removed with [] => ":none" | _ => "" end) ++
                (if in_dom then "" else if in_dom_single then ":single" else ":outside") in
     match get_string "panic" o with
@@ -131,6 +140,8 @@ Definition judge (c o : sexp) : verdict :=
         | _, _, _, _, _ => VBad "undecodable observation"
         end
       end
+    end
+    end
     end
     end
   | _, _, _ => VBad "undecodable case"
